@@ -26,6 +26,7 @@ RULE = ('CAMx-convention in-memory files obtained (a) by reading an image '
         'per field; distinct = digest of the spec.')
 RULE += (' Also: end times at hour 24, species names with underscores, stale header attributes on constructed files, another file of the same format opened between read and write (decoy), cloud/rain sizes that are whole numbers of both 3- and 5-variable steps.')
 RULE += (" The wind file's stagger flag (present/absent and value) and the cloud/rain file description are compared on read-back.")
+RULE += (" A quarter of the sources (all formats but land use) are the reader's file converted to netCDF (classic flavour), opened as a plain netCDF file and written back in the model's format - the usual conversion workflow.")
 ASSUMPTIONS = [
     'f is the in-memory file handed to the writer; equality is bit-exact on '
     'float32 data and exact on integer time flags',
@@ -50,8 +51,12 @@ def gen(rng, idx, tier, seed):
     fmt = refcamx.FORMATS[idx % len(refcamx.FORMATS)]
     spec = refcamx.gen_spec(rng, fmt)
     spec['dhour'] = 1       # C08 is quantified over hourly steps
-    spec['src'] = 'direct' if (idx // len(refcamx.FORMATS)) % 3 == 2 \
-        else 'image'
+    spec['src'] = ['image', 'image', 'direct', 'netcdf'][
+        (idx // len(refcamx.FORMATS)) % 4]
+    if spec['src'] == 'netcdf' and fmt == 'landuse':
+        # (a netCDF copy does not say whether the land-use file was old or
+        # new style)
+        spec['src'] = 'image'
     spec['stale_attrs'] = bool(rng.random() < 0.3)
     spec['decoy_seed'] = int(rng.integers(1 << 30)) if rng.random() < 0.4 \
         else None
@@ -173,6 +178,19 @@ def run(spec, res):
     facets = ['fmt:' + fmt, 'src:' + spec['src'], 'nt:%d' % spec['nt']]
     ncell = spec['nx'] * spec['ny']
     dg = digest(spec)
+    nc_handles = []
+    try:
+        return run_case(spec, res, fmt, facets, ncell, dg, nc_handles,
+                        pncgen)
+    finally:
+        for x in nc_handles:
+            try:
+                x.close()
+            except Exception:
+                pass
+
+
+def run_case(spec, res, fmt, facets, ncell, dg, nc_handles, pncgen):
     with harness.casedir() as d:
         if spec['src'] == 'direct':
             try:
@@ -192,6 +210,22 @@ def run(spec, res):
                 res.note('reader-rejected-image:%s' % type(e).__name__)
                 res.ev(dg, False, facets + ['reader-rejected'])
                 return
+            if spec['src'] == 'netcdf':
+                # the usual workflow: the model file converted to netCDF
+                # (classic flavour: it can hold the NAME attribute), that
+                # file opened as a plain netCDF file and written back in the
+                # model's format
+                try:
+                    import PseudoNetCDF as pnc
+                    pn = os.path.join(d, 'via.nc')
+                    o0 = f.save(pn, format='NETCDF3_CLASSIC', verbose=0)
+                    o0.close()
+                    f = pnc.pncopen(pn, format='netcdf')
+                    nc_handles.append(f)
+                except Exception as e:
+                    res.note('netcdf-conversion-failed:%s' % type(e).__name__)
+                    res.ev(dg, False, facets + ['netcdf-conversion-failed'])
+                    return
         keys = [k for k in c['vars']]
         tkeys = [k for k in ('TFLAG', 'ETFLAG') if k in f.variables.keys()]
         try:
